@@ -380,7 +380,60 @@ fn c14_dom<D: Dom>(cx: &RunCtx) {
     a.push("abs(".into());
     a.push("pow(".into());
     a.push(",".into());
-    tok_run::<D>(cx, "E-TOK Σ_ops∪fn x placeholder pool", a, if quick { 5 } else { 6 }, 4, if quick { 3 } else { 4 }, &k, None, 2400);
+    // (iv) "eval(E, p) equals the evaluation of E with each `@` read as a constant of value p": every
+    // well-formed explored string with `@` (well-formed, so the hole is not next to a juxtaposition partner),
+    // every pool value that a literal denotes exactly — outcome with the placeholder vs outcome with the
+    // bracketed literal written in its place, bit for bit / same variant / same scale
+    let subst = |c: &Ctx<D>, st: &mut Stats, rec: &Recorder| {
+        if !c.s.contains('@') || !matches!(c.parsed, Parsed::WellFormed(_)) {
+            return;
+        }
+        for p in D::pool_critical() {
+            let lit = match D::literal(&p) {
+                Some(l) => l,
+                None => continue,
+            };
+            // the literal must read back as exactly p (that it does is C19's business, not this check's)
+            match run::<D>(&lit, &D::default_at()).out.ok() {
+                Some(v) if D::same(v, &p) => {}
+                _ => {
+                    st.bump("literal-does-not-read-back", 1);
+                    continue;
+                }
+            }
+            let variant = c.s.replace('@', &lit);
+            if variant.chars().count() > 256 {
+                continue;
+            }
+            let with_at = run::<D>(c.s, &p);
+            let with_lit = run::<D>(&variant, &D::default_at());
+            st.executions += 2;
+            st.relations += 1;
+            let agree = match (&with_at.out, &with_lit.out) {
+                (Out::Ok(a), Out::Ok(b)) => {
+                    st.relations_both_ok += 1;
+                    D::same(a, b)
+                }
+                (Out::Err, Out::Err) => true,
+                (Out::Panic(_), _) | (_, Out::Panic(_)) | (Out::Budget(_), _) | (_, Out::Budget(_)) => true,
+                _ => false,
+            };
+            if !agree {
+                rec.add(make_violation::<D>(
+                    "E-AT substitution",
+                    c.s,
+                    &p,
+                    Outcome1 {
+                        kind: Kind::Relation,
+                        expected: format!("{} — the outcome of {:?} (each @ written as the literal of the placeholder)", show_out::<D>(&with_lit.out), variant),
+                        observed: show_out::<D>(&with_at.out),
+                    },
+                    true,
+                ));
+            }
+        }
+    };
+    tok_run::<D>(cx, "E-TOK Σ_ops∪fn x placeholder pool", a, if quick { 5 } else { 6 }, 4, if quick { 3 } else { 4 }, &k, Some(&subst), 2400);
 }
 
 pub fn c14(cx: &RunCtx) {
